@@ -1,11 +1,12 @@
-import Driver.Util
-/- line-protocol driver for property C04 (stub until the area is built) -/
+import Driver.Wire
+import Driver.WireSpec
+/- property C04: model mode = the shared wire driver; spec mode = Driver.WireSpec.spec04 -/
 namespace Driver.C04
 open Driver
 
-def step (st : Unit) (_line : String) : Unit × String := (st, "unimplemented")
-def specStep (st : Unit) (_line : String) : Unit × String := (st, "unimplemented")
-def initModel : Unit := ()
-def initSpec : Unit := ()
+def step := Wire.step
+def initModel : Wire.State := {}
+def specStep := WireSpec.spec04
+def initSpec : WireSpec.SState := {}
 
 end Driver.C04
